@@ -471,7 +471,9 @@ def hooks_used(d):
                             reg(t[0], t[1])
     return out
 
-def module_code(idx, d, text, info):
+def module_code(idx, d, text, info, skip_typed=None):
+    # skip_typed: (source state, method) pairs for which rustc reported that the typed method does not exist
+    # (an escalated suspect): the arm is left out, the call answers `nosuch` and the oracles take it from there
     M = info['name']
     conc = info['concrete']
     asy = info['async']
@@ -632,6 +634,8 @@ def module_code(idx, d, text, info):
     A('      ("tcall", Hold::T(a)) | ("tabandon", Hold::T(a)) | ("tnopoll", Hold::T(a)) => { match (a, t[1]) {')
     for e in info['edges']:
         ev = evp[e['event']]
+        if skip_typed and (e['src'], ev['method']) in skip_typed:
+            continue
         arg = (PT + ' { id: pay(t[2]).unwrap_or(0) }') if ev['payload'] else ''
         A(f'        (HAny::{e["src"]}(m), "{ev["method"]}") => {{')
         if asy:
